@@ -41,8 +41,7 @@ INVARIANT Emit
 CHECK_DEADLOCK FALSE
 """
 PAIRS_QUICK = ["M1", "M5", "N1", "N2", "L1", "T1"]
-PAIRS_THOROUGH = ["M1", "M2", "M3", "M4", "M5", "N1", "N2", "L1", "L2", "L3", "L4", "T1", "T2", "T3", "Z1",
-                  "A", "MX", "TXT", "OPT", "TSIG", "NSEC", "SVCB", "APL", "LOC", "8.1", "15.1"]
+PAIRS_THOROUGH = ["M1", "M2", "M3", "M4", "M5", "N1", "N2", "L1", "L2", "L3", "L4", "T1", "T2", "T3", "Z1", "Z2", "Z3", "A", "AAAA", "MX", "TXT", "OPT", "TSIG", "NSEC", "NSEC3", "SVCB", "HTTPS", "APL", "LOC", "SOA", "RRSIG", "NAPTR", "HIP", "IPSECKEY", "CAA", "URI", "CERT", "TKEY", "DS", "AMTRELAY", "CSYNC", "GPOS", "ISDN", "NSAP", "CH.A", "8.1", "8.2", "15.1", "15.2", "10.2", "18.1"]
 
 
 def tset(xs):
@@ -167,7 +166,7 @@ def run(ctx):
             if not b["hist"] and b["kind"] in ("msg", "namew", "namet", "ttl", "zone", "msgt"):
                 bases.setdefault(b["kind"], []).append(b.get("w") or b.get("s"))
         ctx.extra["spec_inputs"] = len(jobs)
-        nrnd = 8000 if quick else 150000
+        nrnd = 8000 if quick else 300000
         rnd = c04_robust.random_jobs(ctx.seed, nrnd, table, bases)
         jobs += [finish_job(j, by_key) for j in rnd]
         ctx.extra["random_inputs"] = len(rnd)
